@@ -7,12 +7,13 @@ from harness.common import usbref as U
 
 PROP = "C06"
 LEAN_MODULES = ["LunaVerif.Props.C06", "LunaVerif.Lemmas.C06Packet", "LunaVerif.Lemmas.C06Exact",
-                "LunaVerif.Lemmas.C06History"]
+                "LunaVerif.Lemmas.C06History", "LunaVerif.Lemmas.C06Ports"]
 DRIVER = "Driver/C06.lean"
 REQUIRED_THEOREMS = ["earlier_garbage_is_harmless", "setup_transaction_exact", "setup_fields_exact",
                      "garbage_keeps_boundary", "setup_reported_iff_partial",
                      "setup_reported_iff", "ack_once_after_gap", "packet_exact", "history_exact", "tok_packet",
-                     "capture_general", "strobes_len10", "armed_after_setup_token"]
+                     "capture_general", "strobes_len10", "armed_after_setup_token", "ack_port_exact",
+                     "legal_legalFrom"]
 RULE = ("cases = DUT variant (standalone=True, address 0 | decoder + real token detector/CRC/timer wired as a device "
         "does, random address) x speed (HS | FS) x transaction script; scripts are random mixes of: SETUP "
         "transactions (token to us / foreign address / any endpoint; DATA0/1 with 8 valid bytes, corrupted CRC, 0..7 "
@@ -22,7 +23,7 @@ RULE = ("cases = DUT variant (standalone=True, address 0 | decoder + real token 
         "payload, the handshake gap after 11-byte data packets); 'embedded' items put a well-formed packet INSIDE a "
         "longer one (over-long DATA after a SETUP token whose tail is data-PID + 8 bytes + their CRC16 at every offset "
         "around the 10-byte capture limit, with the outer CRC16 valid as well in half of them; valid packet + trailing "
-        "bytes; token + data packet in one burst; SETUP token inside a handshake/data burst; doubled PID), at "
+        "bytes; token + data packet in one burst; SETUP token + trailing bytes; SETUP token inside a handshake/data burst; doubled PID), at "
         "back-to-back (HS), 4-gap and real 40-cycle (FS) byte timing; 'hostile' cases add illegal UTMI patterns and "
         "short gaps after data packets (model comparison only, monitor off)")
 ASSUMPTIONS = [
@@ -161,7 +162,7 @@ def embedded_item(rng, addr):
     tok = Pkt(U.token_packet(U.PID_SETUP, addr, rng.choice([0, 0, 0, rng.below(16)])))
     dpid = U.pid_byte(rng.choice([U.PID_DATA0, U.PID_DATA0, U.PID_DATA1]))
     shape = rng.weighted([(46, "tail-setup"), (8, "tail-short"), (10, "valid-then-junk"), (8, "token+data"),
-                          (8, "junk+token"), (8, "data+token"), (6, "double-pid"), (6, "mid-setup")])
+                          (8, "junk+token"), (8, "data+token"), (6, "double-pid"), (6, "mid-setup"), (8, "token+junk")])
     style = rng.choice([None, "hs", "hs", "fs4", "fs4", "fs40"])
     armed = rng.chance(80)
     pre = [tok] if armed else []
@@ -192,6 +193,9 @@ def embedded_item(rng, addr):
     elif shape == "token+data":
         # missing end-of-packet between the token and its data packet: one burst, neither is a packet
         out = [Pkt(list(tok) + U.data_packet(U.PID_DATA0, body))]
+    elif shape == "token+junk":
+        # a SETUP token with trailing bytes is not a token; the valid data packet after it must not be reported
+        out = [Pkt(list(tok) + rng.bytes(rng.range(1, 3))), Pkt(U.data_packet(U.PID_DATA0, body))]
     elif shape == "junk+token":
         first = rng.choice([U.pid_byte(U.PID_ACK), U.pid_byte(U.PID_NAK), rng.below(256)])
         out = [Pkt([first] + rng.bytes(rng.range(0, 3)) + list(tok)), Pkt(U.data_packet(U.PID_DATA0, body))]
